@@ -20,7 +20,7 @@ RULE_TEXT = (
     "component [n], [n] as A, component [n] as A, component n as A) per component x every arrow form (6) x every reference form per "
     "endpoint (bracketed, bare, alias) x declaration-before/after-use, plus the three-line alias/name mixtures. Random "
     "part: Hypothesis relation over 1-8 components (identifier, dotted, or blank-containing bracketed names with alias), "
-    "random declaration, reference and arrow forms, random line order, 1-3 blanks between tokens, noise text outside the "
+    "random declaration, reference and arrow forms, random line order, 1-3 blanks between tokens, arbitrary text (also lines that look like declarations and arrows, and random unicode) outside the "
     "tags; negative cases with a tag removed must raise PumlParsingError; a quarter of the random cases and one exhaustive "
     "family are sequences of 2-3 diagrams parsed one after the other (fresh parser each) in which an alias token of one "
     "diagram is a component name of another. Oracle: the generated relation itself "
@@ -216,6 +216,25 @@ ALIASES = ["AL1", "al2", "M_B", "zz", "Q9", "al_3", "W", "k2"]
 NOISE = ["", "some text\n", "title: foo\nbar baz\n", "' comment\n\n"]
 
 
+OUTSIDE_LINES = ["[ghost] --> [ghost2]", "component ghost3", "[g4] as G4", "G4 <-- [g5]", "' a comment", "title Something",
+                 "skinparam componentStyle uml2", "", "  ", "x -> y", "@start", "enduml", "@ startuml", "[a] --> [b]"]
+
+
+@st.composite
+def outside_text(draw):
+    """Text before @startuml / after @enduml: ignored whatever it is (it may look like diagram lines), as long as it does
+    not contain the tags themselves."""
+    k = draw(st.integers(0, 3))
+    if k == 0:
+        return draw(st.sampled_from(NOISE))
+    if k == 1:
+        return "\n".join(draw(st.lists(st.sampled_from(OUTSIDE_LINES), min_size=1, max_size=4))) + "\n"
+    txt = draw(st.text(alphabet=st.characters(blacklist_categories=("Cs",), blacklist_characters="\r\x0b\x0c\x1c\x1d\x1e\x85\u2028\u2029"), max_size=30))
+    if "@startuml" in txt or "@enduml" in txt:
+        txt = ""
+    return txt + "\n"
+
+
 @st.composite
 def diagrams(draw, shared_tokens=False):
     n = draw(st.integers(1, 8))
@@ -255,8 +274,8 @@ def diagrams(draw, shared_tokens=False):
     nlines = sum(1 for c in comps if c["decl"] != "none") + len(arrows)
     order = list(draw(st.permutations(list(range(nlines)))))
     drop = draw(st.sampled_from([None] * 9 + ["start", "end"]))
-    return {"components": comps, "arrows": arrows, "order": order, "pre": draw(st.sampled_from(NOISE)),
-            "post": "\n" + draw(st.sampled_from(NOISE)), "drop": drop}
+    return {"components": comps, "arrows": arrows, "order": order, "pre": draw(outside_text()),
+            "post": "\n" + draw(outside_text()), "drop": drop}
 
 
 @st.composite
